@@ -488,6 +488,8 @@ func runC15(c *eng.Ctx) {
 	}
 
 	// ---- R6
+	r8 := c.Rule("C15.R8", "I:error-flow", "(shared with C12.R4) a conversion hook that does not end with exit status 0, or whose response file cannot be read, is an error of Hook.Run: the step counts as failed and the chain stops", 6)
+	runHookFailureIsError(c, r8)
 	r6 := c.Rule("C15.R6", "D:provenance", "FindConversionChain: a new path is PathsCache[prefixRule] followed by one rule taken from NextRules(prefixRule.ToVersion)", 1)
 	if f := r6.NeedFunc(pkgConv + ".(ChainStorage).FindConversionChain"); f != nil && pathsCache != nil {
 		info := f.Pkg.TypesInfo
